@@ -1,7 +1,8 @@
 (* Property C11 -- the difference-penalty matrix and its banded layouts are exact for every size.
    This file contains only the property theorems; each is closed by an exact lemma. *)
 From Coq Require Import ZArith List Bool Lia.
-From PB Require Import lib.SumZ lib.PySlice lib.Arr C11.DtD C11.Table gen.GenBands C11.Banded C11.History.
+From PB Require Import lib.SumZ lib.PySlice lib.Arr C11.DtD C11.Table gen.GenBands C11.Banded C11.History
+                       C11.Uses C11.UsesProofs.
 Import ListNotations.
 Open Scope Z_scope.
 
@@ -80,6 +81,71 @@ Theorem C11_penalty_is_lam_DtD : forall (hp : bool) (N : nat) (c : cfg) (s : sys
 Proof. exact penalty_exact. Qed.
 Print Assumptions C11_penalty_is_lam_DtD.
 
+(* ---- histories that include USES of the system (C11/Uses.v: the same reset / reverse_penalty,
+   extended by add_diagonal, add_penalty, an in-place overwrite of the penalty array by a solver and
+   re-binding of the attribute, with the identity of the buffers behind penalty and
+   original_diagonals tracked) ---- *)
+
+(* Any history of reconfigurations AND uses followed by a reset to settings c equals the fresh system
+   for c -- contents, flags, band bookkeeping, main_diagonal, and the fact that penalty and
+   original_diagonals do not share memory. *)
+Theorem C11_history_with_uses : forall (hp : bool) (N : nat) (c0 : cfg) (ops : list uop) (c : cfg) (u0 : usys),
+  (c_d c0 < N)%nat -> Forall (uop_ok N) ops -> (c_d c < N)%nat ->
+  ureset hp N None c0 = Some u0 ->
+  match ureset hp N (Some (urun hp N u0 ops)) c, ureset hp N None c with
+  | Some u1, Some u2 => usys_eq u1 u2 /\ UInv N u1
+  | None, None => True
+  | _, _ => False
+  end.
+Proof. exact history_with_uses. Qed.
+Print Assumptions C11_history_with_uses.
+
+(* A use never changes original_diagonals (nor the layout flags a later reset reads): with the
+   penalty in its own buffer, every operation that writes self.penalty leaves the stored D'D bands
+   Leibniz-equal, and keeps the two buffers separate. *)
+Theorem C11_use_keeps_diagonals : forall (hp : bool) (N : nat) (u : usys) (o : uop),
+  Sep u -> is_use o = true -> kept u (ustep hp N u o) /\ Sep (ustep hp N u o).
+Proof. exact use_kept. Qed.
+Print Assumptions C11_use_keeps_diagonals.
+
+(* At every point of every history: penalty and original_diagonals are in different buffers
+   (np.shares_memory is False) and original_diagonals is D'D in the layout the flags claim. *)
+Theorem C11_never_aliased : forall (hp : bool) (N : nat) (c0 : cfg) (ops : list uop) (u0 : usys),
+  (c_d c0 < N)%nat -> Forall (uop_ok N) ops -> ureset hp N None c0 = Some u0 ->
+  let s := u_sys (urun hp N u0 ops) in
+  aliased (urun hp N u0 ops) = false /\
+  aeq (s_orig s) (layout (s_d s) N (s_lower s) (s_rev s)).
+Proof. exact never_aliased. Qed.
+Print Assumptions C11_never_aliased.
+
+(* add_diagonal(w) right after a reset leaves lam * D'D + diag(w) in the penalty (w added on the
+   main-diagonal row only) and original_diagonals untouched. *)
+Theorem C11_add_diagonal_exact : forall (hp : bool) (N : nat) (c : cfg) (u : usys) (w : list Z),
+  (c_d c < N)%nat -> ureset hp N None c = Some u -> length w = N ->
+  let u' := add_diagonal u w in
+  s_orig (u_sys u') = s_orig (u_sys u) /\
+  aeq (s_pen (u_sys u)) (scale (c_lam c) (pad_diagonals (layout (c_d c) N (want_lower hp c) (want_rev hp c))
+                                                        (c_pad c) (want_lower hp c))) /\
+  forall r j, 0 <= r < nr (s_pen (u_sys u)) -> 0 <= j < Z.of_nat N ->
+    get (s_pen (u_sys u')) r j
+    = get (s_pen (u_sys u)) r j + (if r =? s_main (u_sys u) then nth (Z.to_nat j) w 0 else 0).
+Proof. exact add_diagonal_exact. Qed.
+Print Assumptions C11_add_diagonal_exact.
+
+(* The separation is what carries the theorem: in the SAME state machine with the multiplication by
+   lam elided when lam = 1 (the only copy between original_diagonals and penalty when padding <= 0),
+   the system aliases its stored diagonals and reset-after-use differs from the fresh system. *)
+Theorem C11_elided_scaling_variant_refuted :
+  let c := {| c_lam := 1; c_d := 2%nat; c_allow_lower := true; c_rev := None; c_allow_penta := false; c_pad := 0 |} in
+  exists u0 u1 u2,
+    ureset_g elide_one false 6 None c = Some u0 /\
+    aliased u0 = true /\
+    ureset_g elide_one false 6 (Some (urun_g elide_one false 6 u0 [AddDiag [1; 1; 1; 1; 1; 1]])) c = Some u1 /\
+    ureset_g elide_one false 6 None c = Some u2 /\
+    tab (s_orig (u_sys u1)) <> tab (s_orig (u_sys u2)) /\ tab (s_pen (u_sys u1)) <> tab (s_pen (u_sys u2)).
+Proof. exact elide_one_refuted. Qed.
+Print Assumptions C11_elided_scaling_variant_refuted.
+
 (* non-vacuity: a concrete history through lower+reversed, full, pentapy layouts *)
 Example C11_history_nonvacuous :
   let c0 := {| c_lam := 2; c_d := 2%nat; c_allow_lower := true; c_rev := Some true; c_allow_penta := false; c_pad := 1 |} in
@@ -90,6 +156,25 @@ Example C11_history_nonvacuous :
       match reset true 9 (Some (run true 9 s0 [Reset c1; Reverse; Reset c2; Reset c0; Reset c1])) c2,
             reset true 9 None c2 with
       | Some s1, Some s2 => observe s1 = observe s2
+      | _, _ => False
+      end
+  | None => False
+  end.
+Proof. vm_compute. reflexivity. Qed.
+
+(* non-vacuity: the same layouts with uses between the resets; lam = 1 and no padding in c1 *)
+Example C11_history_with_uses_nonvacuous :
+  let c0 := {| c_lam := 2; c_d := 2%nat; c_allow_lower := true; c_rev := Some true; c_allow_penta := false; c_pad := 1 |} in
+  let c1 := {| c_lam := 1; c_d := 2%nat; c_allow_lower := false; c_rev := None; c_allow_penta := true; c_pad := 0 |} in
+  let c2 := {| c_lam := 1; c_d := 3%nat; c_allow_lower := true; c_rev := Some false; c_allow_penta := true; c_pad := (-1) |} in
+  match ureset true 9 None c0 with
+  | Some u0 =>
+      match ureset true 9 (Some (urun true 9 u0 [UReset c1; AddDiag [1;2;3;4;5;6;7;8;9]; UReverse; Clobber [[7]];
+                                                UReset c2; AddPen [[1;1;1;1;1;1;1;1;1]]; AddDiag [5]; UReset c2;
+                                                Clobber [[1;2;3;4;5;6;7;8;9];[1;2;3;4;5;6;7;8;9];[1;2;3;4;5;6;7;8;9];[1;2;3;4;5;6;7;8;9]];
+                                                UReset c1; AddDiag [5]; SetPen [[0]]])) c2,
+            ureset true 9 None c2 with
+      | Some u1, Some u2 => uobserve u1 = uobserve u2
       | _, _ => False
       end
   | None => False
